@@ -15,8 +15,9 @@ RULE = (
     "each run draws (from one tape) a bin table (1-6 chromosomes incl. X/Y, 1-400 bins each, optional "
     "planted centromere gap, null-coverage bins at arm edges and inside, zero / tiny weights, outliers, "
     "duplicate / comma-list / ignored gene names, with or without depth column), a method, skip_low, "
-    "skip_outliers, min_weight, processes in 1..16 and a SimPool schedule (+ pool faults in the fault "
-    "population). Non-trivial = at least one bin was filtered or a centromere split was taken, AND "
+    "skip_outliers, min_weight, haar threshold, PAR genome, processes in 1..16 and a SimPool schedule "
+    "(+ pool faults in the fault population); a quarter of the min_weight=0 runs also go through "
+    "cnvkit.py segment on a written .cnr. Non-trivial = at least one bin was filtered or a centromere split was taken, AND "
     "(the per-arm pool ran >1 task, or the method is an hmm variant, or a fault fired). Distinct = "
     "distinct (method, filter config, processes class, table digest, pool interleaving hashes, fault "
     "kinds fired) tuples, counted with a set."
